@@ -257,9 +257,14 @@ namespace hgraph::detail
                 return false;
             }
 
+            // The added/removed bits of the previous target describe the
+            // transition cycle only if it ticked in that cycle. Otherwise a
+            // removed bit is the leftover of an earlier cycle (the slot is
+            // merely pending erase) and the key left the view long ago.
+            const bool ticked_in_transition = previous.modified(link->structural_transition_time());
+            if (!ticked_in_transition && !state->slot_access->slot_live(previous, slot)) { return false; }
             const bool added_in_transition =
-                previous.modified(link->structural_transition_time()) &&
-                state->slot_access->slot_added(previous, slot);
+                ticked_in_transition && state->slot_access->slot_added(previous, slot);
             return state->slot_access->slot_published(previous, slot) && !added_in_transition;
         }
 
